@@ -316,6 +316,13 @@ def special(bct, name, n, seed):
             import scipy.sparse as sp
             M = sp.csr_matrix(und[0])
             add('sp', lambda: bct.participation_coef_sparse(M, cis[1]))
+            # the documented sparse input in the storage classes and integer widths a count matrix comes in
+            cnt = np.round(np.abs(und[0]) * 7)
+            for fmt in (sp.csr_matrix, sp.csc_matrix):
+                for dt in (np.int16, np.int32, np.int64, np.float32, np.float64, np.uint8):
+                    for deg in ('undirected', 'in', 'out'):
+                        add('sp:%s:%s:%s' % (fmt.__name__, np.dtype(dt).name, deg),
+                            lambda fmt=fmt, dt=dt, deg=deg: bct.participation_coef_sparse(fmt(cnt.astype(dt)), cis[1], deg))
         except Exception:  # noqa
             pass
     return out
